@@ -14,6 +14,21 @@ short signed sizeof static struct switch template this throw true try typedef ty
 size_t ssize_t uint8_t uint16_t uint32_t uint64_t int8_t int16_t int32_t int64_t string std tbox'''.split())
 
 
+LITERAL = re.compile(r'//[^\n]*|/\*.*?\*/|"(?:\\.|[^"\\\n])*"|\'(?:\\.|[^\'\\\n])*\'|^[ \t]*#[^\n]*', re.S | re.M)
+
+
+def sub_code(src, pat, repl):
+    """substitute only in code: string and character literals, comments and preprocessor lines stay as they are (a renamed local must not rename the
+    protocol field "id" in a string)"""
+    out, pos = [], 0
+    for m in LITERAL.finditer(src):
+        out.append(pat.sub(repl, src[pos:m.start()]))
+        out.append(m.group(0))
+        pos = m.end()
+    out.append(pat.sub(repl, src[pos:]))
+    return ''.join(out)
+
+
 def main():
     keep = '--keep' in sys.argv
     props = [a for a in sys.argv[1:] if a.startswith('C')]
@@ -54,7 +69,7 @@ def main():
                re.search(r'\b(struct|class|enum|using|typedef|#define)\s+%s\b' % re.escape(n), code) or re.search(r'\[[^\]]*[&=,\s]%s\s*=' % re.escape(n), code):
                 continue
             pat = re.compile(r'(?<![\w.>:])%s\b(?!\s*\()' % re.escape(n))
-            src = ''.join(l if l.lstrip().startswith('#') else pat.sub(n + '_rn', l) for l in src.splitlines(True))
+            src = sub_code(src, pat, n + '_rn')
             done.append(n)
         open(path, 'w', encoding='utf-8', errors='surrogateescape').write(src)
         total += len(done)
